@@ -564,7 +564,18 @@ func (sc *scope) randomArgs(shape string, r *vh.RNG) []Val {
 			for i := range l {
 				l[i] = randMap(r)
 			}
-			a = append(a, VMM(l))
+			v := VMM(l)
+			// a third of the lists carry NIL maps (mostly in front): nil and empty are the same value, not the same Go object
+			if n > 0 && r.Chance(1, 3) {
+				for i := range l {
+					if (i == 0 && r.Chance(3, 4)) || r.Chance(1, 5) {
+						l[i] = amap{}
+						v.MM[i] = nil
+						v.NM = append(v.NM, i)
+					}
+				}
+			}
+			a = append(a, v)
 		default:
 			panic("randomArgs: " + p + " in " + shape)
 		}
